@@ -78,6 +78,12 @@ theorem namedInv_filt (m' : MState) (unl : List App) : NamedInv m' (filtApps m'.
   simp only [wantsT_filt, Bool.and_eq_true, notWaiting, decide_eq_true_eq] at hw
   exact hw.2
 
+/-- what holds of every map handed to `flood_fill_aplx` after the first attempt, whatever the pre-state:
+it is a part of the request and, in a machine state reached during this call, none of the cores it
+names is in the wait state - in particular none of them holds its binary -/
+def SentW (c : Ctl) (apps : List App) (m0 : MState) (l : List App) : Prop :=
+  SubList l apps ∧ ∃ m, Inv apps c.appId m0 m ∧ NamedInv m l
+
 /-- **the retry loop without `PreClean`**: the machine invariant (`Inv`: cores that were not requested
 are untouched, a requested core holds its binary or is as before), the reason the loop was left with
 an empty map (every requested core is in the wait state, or - count mode - the count matched), and,
@@ -88,13 +94,14 @@ theorem loadLoop_weak (mc : MCfg) (c : Ctl) (apps : List App) (hv : Valid mc c a
       let r := loadLoop mc c (coreCount apps) fuel s tries unl sent
       Inv apps c.appId m0 r.1.m ∧ SubList r.2.1 apps ∧
       (WaitInv apps r.1.m r.2.1 ∨ (r.2.1 = [] ∧ CountExit mc c apps r.1.m)) ∧
-      (r.2.1 ≠ [] → tries + fuel = c.nTries + 1 → NamedInv r.1.m r.2.1) := by
+      (r.2.1 ≠ [] → tries + fuel = c.nTries + 1 → NamedInv r.1.m r.2.1) ∧
+      (∀ l ∈ r.2.2, l ∈ sent ∨ (tries = 0 ∧ l = unl) ∨ SentW c apps m0 l) := by
   intro fuel
   induction fuel with
   | zero =>
     intro s tries unl sent ⟨hinv, hsub, hreason, hnamed⟩
     simp only [loadLoop]
-    refine ⟨hinv, hsub, hreason, fun _ ht => ?_⟩
+    refine ⟨hinv, hsub, hreason, fun _ ht => ?_, fun l hl => Or.inl hl⟩
     rcases hnamed with h | h
     · omega
     · exact h
@@ -109,13 +116,27 @@ theorem loadLoop_weak (mc : MCfg) (c : Ctl) (apps : List App) (hv : Valid mc c a
         · exact absurd h hcond.1
       have hstep := floodFill_step mc c apps hv unl hsub s
       have hinv1 : Inv apps c.appId m0 (floodFill mc c true s unl).m := hinv.step hv hstep
+      have hsentstep : ∀ l, (l ∈ sent ++ [unl] ∨ (tries + 1 = 0 ∧ l = l) ∨ SentW c apps m0 l) →
+          (l ∈ sent ∨ (tries = 0 ∧ l = unl) ∨ SentW c apps m0 l) := by
+        intro l h
+        rcases h with h | h | h
+        · rcases List.mem_append.mp h with h | h
+          · exact Or.inl h
+          · simp only [List.mem_singleton] at h
+            subst h
+            rcases hnamed with h0 | h0
+            · exact Or.inr (Or.inl ⟨h0, rfl⟩)
+            · exact Or.inr (Or.inr ⟨hsub, s.m, hinv, h0⟩)
+        · omega
+        · exact Or.inr (Or.inr h)
       -- the read-back continuation, from any simulator state with the same machine
       have hcheck : ∀ s2 : Sim, s2.m = (floodFill mc c true s unl).m →
           let r := loadLoop mc c (coreCount apps) fuel (checkApps mc c.buf s2 unl).1 (tries + 1)
             (checkApps mc c.buf s2 unl).2 (sent ++ [unl])
           Inv apps c.appId m0 r.1.m ∧ SubList r.2.1 apps ∧
           (WaitInv apps r.1.m r.2.1 ∨ (r.2.1 = [] ∧ CountExit mc c apps r.1.m)) ∧
-          (r.2.1 ≠ [] → tries + (fuel + 1) = c.nTries + 1 → NamedInv r.1.m r.2.1) := by
+          (r.2.1 ≠ [] → tries + (fuel + 1) = c.nTries + 1 → NamedInv r.1.m r.2.1) ∧
+          (∀ l ∈ r.2.2, l ∈ sent ∨ (tries = 0 ∧ l = unl) ∨ SentW c apps m0 l) := by
         intro s2 hs2
         obtain ⟨c1, c2, _⟩ := checkApps_spec mc c.buf hv.hb hv.hv unl s2
         have hstep2 : FillStep apps c.appId s.m (checkApps mc c.buf s2 unl).1.m := by rw [c2, hs2]; exact hstep
@@ -123,7 +144,11 @@ theorem loadLoop_weak (mc : MCfg) (c : Ctl) (apps : List App) (hv : Valid mc c a
           ⟨by rw [c2, hs2]; exact hinv1, by rw [c1]; exact subList_filt _ hsub,
            Or.inl (by rw [c1, ← c2]; exact waitInv_filt hwait hstep2),
            Or.inr (by rw [c1, ← c2]; exact namedInv_filt _ _)⟩
-        exact ⟨this.1, this.2.1, this.2.2.1, fun h1 h2 => this.2.2.2 h1 (by omega)⟩
+        refine ⟨this.1, this.2.1, this.2.2.1, fun h1 h2 => this.2.2.2.1 h1 (by omega), fun l hl => hsentstep l ?_⟩
+        rcases this.2.2.2.2 l hl with h | h | h
+        · exact Or.inl h
+        · omega
+        · exact Or.inr (Or.inr h)
       by_cases huc : c.useCount = true
       · simp only [huc, if_true, send_count mc c _ hv.happ]
         split
@@ -136,13 +161,17 @@ theorem loadLoop_weak (mc : MCfg) (c : Ctl) (apps : List App) (hv : Valid mc c a
             (tries + 1) [] (sent ++ [unl])
             ⟨hinv1, fun u hu => absurd hu (by simp), Or.inr ⟨rfl, ⟨huc, hcnt⟩⟩,
              Or.inr (fun u hu => absurd hu (by simp))⟩
-          exact ⟨this.1, this.2.1, this.2.2.1, fun h1 h2 => this.2.2.2 h1 (by omega)⟩
+          refine ⟨this.1, this.2.1, this.2.2.1, fun h1 h2 => this.2.2.2.1 h1 (by omega), fun l hl => hsentstep l ?_⟩
+          rcases this.2.2.2.2 l hl with h | h | h
+          · exact Or.inl h
+          · omega
+          · exact Or.inr (Or.inr h)
         · exact hcheck _ rfl
       · have huc' : c.useCount = false := by simpa using huc
         simp only [huc', Bool.false_eq_true, if_false]
         exact hcheck _ rfl
     · rw [if_neg hcond]
-      refine ⟨hinv, hsub, hreason, fun h1 h2 => ?_⟩
+      refine ⟨hinv, hsub, hreason, fun h1 h2 => ?_, fun l hl => Or.inl hl⟩
       rcases hnamed with h | h
       · exfalso; apply hcond; exact ⟨h1, by omega⟩
       · exact h
